@@ -87,6 +87,7 @@ pub fn mtime_strategy() -> BoxedStrategy<Mtime> {
         1 => Just(Mtime::Future(86_400, 0)),
         1 => Just(Mtime::Future(86_400, 123_456_789)),
         1 => Just(Mtime::At(7_258_118_400, 0)), // year 2200
+        1 => prop_oneof![Just(Mtime::Before(86_400, 0)), Just(Mtime::Before(0, 1)), Just(Mtime::Before(1, 500_000_000)), Just(Mtime::Before(3_000_000_000, 0))],
     ]
     .boxed()
 }
@@ -347,6 +348,7 @@ pub fn date_value(m: Mtime) -> BoxedStrategy<Bs> {
         Mtime::At(s, _) => s,
         Mtime::None => T0,
         Mtime::Future(..) => now_secs(),
+        Mtime::Before(..) => 0,
     };
     prop_oneof![
         3 => Just(base),
